@@ -129,8 +129,8 @@ def make_spec(rng, i):
                 d = rng.randint(1, max(2, n // 3))
                 cursor[0] = t0 + d + 1
             dt0 = spec['schedule'][0]['dt']
-            r['start'] = GEN.reexpress(GEN.Q('Time', GEN.mulq(dt0, t0)['v'] if t0 else 0.0, dt0['u']), rng.choice(SI.units('Time')))
-            r['dur'] = GEN.reexpress(GEN.mulq(dt0, d), rng.choice(SI.units('TimeInterval')))
+            r['start'] = GEN.reexpress(GEN.Q('Time', GEN.mulq(dt0, t0)['v'] if t0 else 0.0, dt0['u']), rng.choice(GEN.time_units_for(GEN.qsi(dt0))))
+            r['dur'] = GEN.reexpress(GEN.mulq(dt0, d), rng.choice(GEN.time_units_for(GEN.qsi(dt0))))
         elif t == 'synth':
             spec['rules'].append({'type': 'synth', 'script': None})
         elif t == 'reach':
